@@ -374,3 +374,5 @@ def run(ctx, rep):
     rule_cache(ctx, rep)
     rule_same(ctx, rep)
     rule_stateless(ctx, rep)
+    from rules.c05 import rule_units
+    rule_units(ctx, rep, rid="R-C11-units")
